@@ -200,6 +200,25 @@ def run(ctx):
     except Exception as ex:
         viol.append({"kind": "checker could not be evaluated", "error": repr(ex)[:800], "no_failing_input_found": True})
     evals += forced_max_branch_len(path, viol)
+    # Model/SwcSplit.v against _split_branch_equally (pure function of the point list and the number of pieces)
+    try:
+        from jaxley.utils.cell_utils import _split_branch_equally
+        sp_jobs, sp_exprs = [], []
+        for _k in range(ctx.budget(20, 150)):
+            npts = rng.randint(2, 30)
+            npieces = rng.randint(2, min(10, npts))
+            pts = list(range(1, npts + 1))
+            real = [[int(x) for x in p] for p in _split_branch_equally(np.asarray(pts), npieces)]
+            sp_jobs.append((pts, npieces, real))
+            sp_exprs.append(f"split_equally [{'; '.join(str(x) for x in pts)}] {npieces}")
+        import ast
+        for (pts, npieces, real), o in zip(sp_jobs, coqeval.coq_eval(["SwcSplit"], sp_exprs, prelude="Close Scope Q_scope. Open Scope nat_scope.", shard=25)):
+            model = [list(x) for x in ast.literal_eval(o.replace("%nat", "").replace(";", ","))]
+            evals += 1
+            if model != real:
+                viol.append({"kind": "_split_branch_equally differs from Model/SwcSplit.v", "points": len(pts), "pieces": npieces, "code": real, "model": model, "no_failing_input_found": True})
+    except Exception as ex:
+        viol.append({"kind": "split correspondence could not be evaluated", "error": repr(ex)[:400], "no_failing_input_found": True})
     import regress
     evals += regress.run("C16", viol)
     for v in viol:
